@@ -552,6 +552,36 @@ def pose(res, timeout, name, q, hyps, goal, detail, model_terms=(), extra_axioms
     return st
 
 
+def auto_facts(fs):
+    """ASSUMED facts of str.replace / rstrip / ... instantiated for every application that occurs (closed under the facts' own terms)"""
+    table = {"replace_backslash_by_slash": repl_facts, "rstrip_slash": rstrip_facts, "lstrip_slash": lstrip_facts, "strip_slash": strip_facts}
+    seen, out, work = set(), [], list(fs)
+    while work:
+        t = work.pop()
+        if t.get_id() in seen:
+            continue
+        seen.add(t.get_id())
+        if z3.is_app(t):
+            fn = table.get(t.decl().name())
+            if fn is not None:
+                new = fn(t.arg(0))
+                out += new
+                work += new
+            work += t.children()
+    return out
+
+
+def pose_s(res, timeout, name, hyps, goal, detail, model_terms=()):
+    """a text lemma: hypotheses + the ASSUMED facts of every str.replace / rstrip application in it"""
+    cs = list(hyps) + [z3.Not(goal)]
+    st, m, secs = solve(cs + auto_facts(cs), timeout)
+    mdl = None
+    if m is not None:
+        mdl = {str(t)[:70]: mval(m, t) for t in model_terms} or {"z3_model": str(m)[:300]}
+    res.add(name, st, mdl, secs, "z3", detail)
+    return st
+
+
 def trace(res, name, ok, detail, info=None):
     res.add(name, PROVED if ok else REFUTED, None if ok else (info or {}), 0.0, "trace", detail)
     return ok
@@ -1250,60 +1280,80 @@ def run_partition_on_columns(ctx, funcs, timeout, hive):
              "with len(key) == len(columns)", (W.NC,))
         lvl = d.lvl
         name, val = W.NAME(W.iS), W.KEYVAL(W.g, W.iS)
-        txt = z3.String("value_text")          # the text after 'name=' (hive) / the whole level (drill)
-        spec_level = z3.Concat(name, EQ, txt) if hive else txt
         # ORACLE (property): the directory of a row is named by its key values: level i == name_i=text (hive) / text (drill) where
-        # `text` names the value (parsing it by the value's kind gives the value back)
+        # `text` NAMES the value (parsing it by the value's kind gives the value back).  ASSUMED about Python/pandas: str(v) names v,
+        # and isoformat() names a Timestamp.  The existential `text` is discharged by these two candidate witnesses.
         names_facts = [NAMES_VALUE(STR(val), val), z3.Implies(KIND(val) == K_TS, NAMES_VALUE(ISO(val), val))]
-        goal = z3.Exists([txt], z3.And(lvl == spec_level, NAMES_VALUE(txt, val)))
-        # the existential is discharged by the two candidate witnesses str(v) / isoformat(v)
-        wit = z3.Or(*[z3.And(lvl == z3.substitute(spec_level, (txt, w)), NAMES_VALUE(w, val)) for w in (STR(val), ISO(val))])
+
+        def spec(w):
+            return z3.Concat(name, EQ, w) if hive else w
+        wit = z3.Or(*[z3.And(lvl == spec(w), NAMES_VALUE(w, val)) for w in (STR(val), ISO(val))])
         mt = (W.iS, lvl, name, STR(val), ISO(val), KIND(val))
-        st = pose(res, timeout, P + "level_text_is_name_and_value_text_of_same_column", q, names_facts, wit,
-                  "component i of the directory is built from partition column i's NAME and the text of the group's key value FOR THAT "
-                  "COLUMN (" + ("'name=text'" if hive else "'text'") + "), the text naming the value (str(v); isoformat for timestamps)", mt)
-        if solve(cs + names_facts + [z3.Not(z3.And(lvl == name, True))], timeout)[0] == REFUTED:
+        pose(res, timeout, P + "level_text_is_name_and_value_text_of_same_column", q, names_facts, wit,
+             "component i of the directory is built from partition column i's NAME and the text of the group's key value FOR THAT "
+             "COLUMN (" + ("'name=text'" if hive else "'text'") + "), the text naming the value (str(v); isoformat for timestamps)", mt)
+        if solve(cs + names_facts + [z3.Not(lvl == name)], timeout)[0] == REFUTED:
             must_fail += 1
+        w = next((w for w in (STR(val), ISO(val)) if solve(cs + [lvl != spec(w)], timeout)[0] == PROVED), None)
+        if w is None:
+            continue                      # (reported by the obligation above)
         # the level as it ends up in the path: normalised by join_path (cut: join_path.component_is_normalised_text)
-        ax = norm_facts(lvl)
-        legal = [segment(name), z3.Not(z3.Contains(name, EQ)), z3.Not(z3.Contains(name, BS))]
-        for w, wn in ((STR(val), "str"), (ISO(val), "iso")):
-            legal += [z3.Implies(lvl == z3.substitute(spec_level, (txt, w)), z3.And(segment(w), z3.Not(z3.Contains(w, BS))))]
-        legal_any = [segment(name)] + [z3.Implies(lvl == z3.substitute(spec_level, (txt, w)), segment(w)) for w in (STR(val), ISO(val))]
-        pose(res, timeout, P + "level_reaches_the_path_verbatim[names and texts without backslash]", q, names_facts + legal, z3.And(norm(lvl) == lvl, z3.Length(lvl) > 0,
-                                                                                                  z3.Not(z3.Contains(norm(lvl), SL))),
-             "for column names / value texts that are legal directory names without backslash, join_path keeps the level unchanged, "
-             "keeps it (non-empty) and it stays ONE directory level", mt, ax)
-        pose(res, timeout, P + "level_reaches_the_path_verbatim[any legal directory name]", q, names_facts + legal_any,
-             z3.And(norm(lvl) == lvl, z3.Not(z3.Contains(norm(lvl), SL))),
-             "the same for ANY legal single directory name (non-empty, no '/', not '.' / '..')", mt, ax)
-        if not hive:
-            pose(res, timeout, P + "level_is_not_a_dot_segment[value texts that are legal directory names]", q, names_facts + legal,
-                 z3.And(norm(lvl) != sv(".."), norm(lvl) != sv(".")), "the file stays under the dataset root", mt, ax)
-            pose(res, timeout, P + "level_is_not_a_dot_segment[any value text]", q, names_facts, z3.And(norm(lvl) != sv(".."), norm(lvl) != sv(".")),
-                 "drill: NO value text may turn into the directory '..' or '.' (the file would be written outside / at the dataset root)", mt, ax)
+        L = spec(w)
+        mt = (W.iS, name, w)
+        no_bs = [z3.Not(z3.Contains(name, BS)), z3.Not(z3.Contains(w, BS))]
+        legal = [segment(w)] + ([segment(name), z3.Not(z3.Contains(name, EQ))] if hive else [])
+        verb = z3.And(norm(L) == L, z3.Length(norm(L)) > 0, z3.Not(z3.Contains(norm(L), SL)))
+        pose_s(res, timeout, P + "level_reaches_the_path_verbatim[names and texts without backslash]", legal + no_bs, verb,
+               "for column names / value texts that are legal directory names (non-empty, no '/', not '.' / '..') without backslash, join_path "
+               "keeps the level unchanged, keeps it (non-empty) and it stays ONE directory level", mt)
+        pose_s(res, timeout, P + "level_reaches_the_path_verbatim[any legal directory name]", legal, verb,
+               "the same for ANY legal single directory name - REFUTED inside the region of " + FID_BACKSLASH + " (a backslash in the text)", mt)
+        dots = z3.And(norm(L) != sv(".."), norm(L) != sv("."))
+        if hive:
+            pose_s(res, timeout, P + "level_is_not_a_dot_segment[any value text]", [], dots, "hive: a level contains '=' and can never be '.' or '..'", mt)
         else:
-            pose(res, timeout, P + "level_is_not_a_dot_segment[any value text]", q, names_facts + [z3.Length(name) > 0], z3.And(norm(lvl) != sv(".."), norm(lvl) != sv(".")),
-                 "hive: a level contains '=' and can never be '.' or '..'", mt, ax)
+            pose_s(res, timeout, P + "level_is_not_a_dot_segment[value texts that are legal directory names]", legal + no_bs, dots,
+                   "the file stays under the dataset root", mt)
+            pose_s(res, timeout, P + "level_is_not_a_dot_segment[any value text]", [], dots,
+                   "drill: NO value text may turn into the directory '..' or '.' (the file would be written outside / at the dataset root)", mt)
         # ---- paths: relname / mkdirs / fullname, in terms of the directory text D and the components ---------------------------
         D = d.z
-        rel_spec = join_term(eng, q, [dirv, Custom(TextV(W.PARTNAME))])
-        full_spec = join_term(eng, q, [Custom(TextV(W.ROOT)), dirv, Custom(TextV(W.PARTNAME))])
-        mkdir_spec = join_term(eng, q, [Custom(TextV(W.ROOT)), dirv])
-        # CUT (join_path): the joined directory is clean (no backslash, no trailing '/'), non-empty iff some level is kept
-        dfacts = [clean(D), z3.Not(z3.PrefixOf(SL, D))] + norm_facts(D)
+        Dv, Rv, Pv = Custom(TextV(D)), Custom(TextV(W.ROOT)), Custom(TextV(W.PARTNAME))
+        rel_spec = join_term(eng, q, [Dv, Pv])
+        full_spec = join_term(eng, q, [Rv, Dv, Pv])
+        mkdir_spec = join_term(eng, q, [Rv, Dv])
         opened = text_of(op.name) if op.name is not None else None
         mkd = text_of(mk[1]) if mk[1] is not None else None
         mt2 = (W.ROOT, D, W.PARTNAME)
         if opened is None or mkd is None:
             res.add(P + "out_of_reach", UNKNOWN, None, 0.0, "engine", "file / directory name is not a text")
             continue
-        pose(res, timeout, P + "file_is_root_dir_partname", q, dfacts, opened == full_spec,
-             "the file opened is join_path(root_path, <directory of the group>, partname)", mt2 + (opened,))
-        pose(res, timeout, P + "directory_created_is_root_dir", q, dfacts, mkd == mkdir_spec,
-             "mkdirs gets join_path(root_path, <directory of the group>) - before the file is opened", mt2 + (mkd,))
-        pose(res, timeout, P + "file_is_inside_the_created_directory", q, dfacts + [z3.Length(D) > 0, z3.Length(norm(W.ROOT)) > 0], opened == z3.Concat(mkd, SL, W.PARTNAME),
-             "file name == created directory + '/' + partname", mt2 + (opened, mkd))
+        # CUT (join_path.no_backslash_in_result_component / trailing_separator_dropped / equals_sign_survives): the joined directory has no
+        # backslash; it is non-empty and does not end with '/' when every level is non-empty after normalisation - hive: every level
+        # contains '=' (checked: structurally); drill: for value texts that are legal directory names without backslash (hypothesis)
+        if hive:
+            ok = solve(cs + [z3.Not(z3.Contains(lvl, EQ))], timeout)[0] == PROVED
+            trace(res, P + "every_level_contains_equals", ok, "each component is 'name=...': never dropped as empty by join_path")
+            if not ok:
+                continue
+        dfacts = [clean(D), z3.Length(D) > 0]
+        dtag = "" if hive else "[value texts that are legal directory names]"
+        # the case split over which components join_path keeps is done here (root may be ''), the solver sees plain concatenations
+        for root_kept in (True, False):
+            case = [(z3.Length(W.ROOT) > 0, z3.BoolVal(root_kept)), (z3.Length(D) > 0, z3.BoolVal(True)), (z3.Length(W.PARTNAME) > 0, z3.BoolVal(True))]
+            ch = dfacts + [z3.Length(W.ROOT) > 0 if root_kept else z3.Length(W.ROOT) == 0]
+            ctag = dtag + ("" if root_kept else "[root_path == '']")
+
+            def u(t):
+                return z3.simplify(z3.substitute(t, *case))
+            pose_s(res, timeout, P + "file_is_root_dir_partname" + ctag, cs + ch, u(opened) == u(full_spec),
+                   "the file opened is join_path(root_path, <directory of the group>, partname)", mt2)
+            pose_s(res, timeout, P + "directory_created_is_root_dir" + ctag, cs + ch, u(mkd) == u(mkdir_spec),
+                   "mkdirs gets join_path(root_path, <directory of the group>) - before the file is opened", mt2)
+            if root_kept:
+                pose_s(res, timeout, P + "file_is_inside_the_created_directory" + ctag, cs + ch + [z3.Length(norm(W.ROOT)) > 0],
+                       u(opened) == z3.Concat(u(mkd), SL, W.PARTNAME), "file name == created directory + '/' + partname", mt2)
+            q.ghost["case:" + str(root_kept)] = (case, ch, ctag)
         # make_part_file(f2, group[remaining])
         f_ok = isinstance(mp[1], Custom) and mp[1].h is op
         trace(res, P + "part_written_into_the_opened_file", f_ok, "make_part_file writes into the file object just opened for this group")
@@ -1340,13 +1390,20 @@ def run_partition_on_columns(ctx, funcs, timeout, hive):
             if fp is None:
                 trace(res, P + "metadata_path_is_dir_partname", False, "chunk.file_path is a text", {})
             else:
-                pose(res, timeout, P + "metadata_path_is_dir_partname", q, dfacts, fp == rel_spec,
-                     "chunk.file_path == join_path(<directory of the group>, partname): relative to the dataset root", mt2 + (fp,))
-                # the reader opens join_path(basepath, file_path) (api.row_group_filename): that must be the file written
-                reader = join_term(eng, q, [Custom(TextV(W.ROOT)), Custom(TextV(fp))])
-                pose(res, timeout, P + "reader_finds_the_file_written", q, dfacts + norm_facts(fp), reader == opened,
-                     "join_path(root, chunk.file_path) - what api.row_group_filename opens - is exactly the file this group was written to",
-                     mt2 + (fp, opened))
+                for root_kept in (True, False):
+                    case, ch, ctag = q.ghost["case:" + str(root_kept)]
+
+                    def u(t):
+                        return z3.simplify(z3.substitute(t, *case))
+                    if root_kept:
+                        pose_s(res, timeout, P + "metadata_path_is_dir_partname" + ctag, cs + ch, u(fp) == u(rel_spec),
+                               "chunk.file_path == join_path(<directory of the group>, partname): relative to the dataset root", mt2)
+                    # the reader opens join_path(basepath, file_path) (api.row_group_filename): that must be the file written
+                    fpu = u(fp)
+                    reader = z3.Concat(norm(W.ROOT), SL, norm(fpu)) if root_kept else norm(fpu)
+                    pose_s(res, timeout, P + "reader_finds_the_file_written" + ctag, cs + ch + [z3.Length(fpu) > 0], reader == u(opened),
+                           "join_path(root, chunk.file_path) - what api.row_group_filename opens - is exactly the file this group was written to",
+                           mt2)
     for q in rets:
         v = q.ctl[1]
         news = [e for e in effects(q) if e[0] == "new_list"]
